@@ -151,7 +151,9 @@ func (p *c02) Check(sc *runner.Scenario, st *runner.Stats, pin string) *runner.V
 	if ir.Mutated != "" {
 		return viol(sc, "retained_value_mutated", "indexed read: %s", ir.Mutated)
 	}
-	_, usedIndex := ir.Iter.(interface{ Next([]byte) (*mcap.Schema, *mcap.Channel, *mcap.Message, error) })
+	_, usedIndex := ir.Iter.(interface {
+		Next([]byte) (*mcap.Schema, *mcap.Channel, *mcap.Message, error)
+	})
 	_ = usedIndex
 	if precondition {
 		st.Inc("probe.precondition_config")
